@@ -138,6 +138,9 @@ func (e *Exec) requiredMissing(v Value, t types.Type, depth int) bool {
 	if depth > 8 {
 		return false
 	}
+	if ap, _ := e.pathAux["proto.allowPartial"].(bool); ap {
+		return false // UnmarshalOptions{AllowPartial: true}: no required-field check
+	}
 	if !typeHasRequired(t, 0) {
 		return false
 	}
@@ -275,6 +278,28 @@ func init() {
 		arr.Name = "bytes:garbage"
 		return SliceV{Arr: arr, Len: 1, Cap: 1}
 	}
+	stubs["(google.golang.org/protobuf/proto.UnmarshalOptions).Unmarshal"] = func(e *Exec, fr *Frame, fn *ssa.Function, a []Value) Value {
+		o := a[0].(StructV)
+		st := fn.Signature.Recv().Type().Underlying().(*types.Struct)
+		allowPartial := false
+		for i := 0; i < st.NumFields(); i++ {
+			switch st.Field(i).Name() {
+			case "AllowPartial":
+				t, ok := o.F[i].(*Term)
+				if !ok || !(t.IsTrue() || t.IsFalse()) {
+					e.unsupported("UnmarshalOptions with a symbolic AllowPartial")
+				}
+				allowPartial = t.IsTrue()
+			case "Merge":
+				if t, ok := o.F[i].(*Term); !ok || !t.IsFalse() {
+					e.unsupported("UnmarshalOptions.Merge")
+				}
+			}
+		}
+		e.pathAux["proto.allowPartial"] = allowPartial
+		defer delete(e.pathAux, "proto.allowPartial")
+		return stubs["google.golang.org/protobuf/proto.Unmarshal"](e, fr, fn, a[1:])
+	}
 	stubs["google.golang.org/protobuf/proto.Unmarshal"] = func(e *Exec, fr *Frame, fn *ssa.Function, a []Value) Value {
 		dst := a[1].(IfaceV)
 		if cv, ok := a[0].(chunksV); ok {
@@ -307,6 +332,9 @@ func init() {
 		b := a[0].(SliceV)
 		if b.Arr == nil {
 			// empty input is a valid empty message for proto3, but FeedMessage has a required header
+			if ap, _ := e.pathAux["proto.allowPartial"].(bool); ap {
+				return IfaceV{}
+			}
 			return e.newError("proto: required field missing")
 		}
 		if e.curFoot != nil {
